@@ -104,6 +104,56 @@ def handleConn (dec : Bytes → Bool) (max : Nat) (done : Nat → Nat) (lim : Na
         let r := handleConn dec max done lim fuel (i + 1) rest cc
         (.query body :: r.1, r.2)
 
+/-! ### the idle deadline, seen in time
+
+      for {
+        c.SetReadDeadline(time.Now().Add(s.idleTimeout))   // absolute deadline, armed before EVERY message
+        m, n, err := dnsutils.ReadMsgFromTCP(br)            // blocks (several socket reads) until the frame is whole
+        if err != nil { return }                            // i/o timeout: the connection is closed
+        …
+      }
+
+  Times are natural numbers (any unit). `arr` lists, for each successive frame, the time at which its last
+  octet is available to the reader. The deadline is NOT re-armed between the socket reads of one message:
+  what must stay below `idle` is the time from the top of the loop (the previous message was complete, or the
+  connection was accepted) to the completion of the message — not merely every pause between two segments. -/
+
+/-- the loop of `handleConn` in time: `now` = time at the top of the loop, `lag j` = whatever time passes
+    between the completion of message `j` and the next pass through the top of the loop (dispatch, scheduling);
+    returns how many messages are read before the deadline fires (all of them: `arr.length`). -/
+def idleLoop (idle : Nat) (lag : Nat → Nat) : Nat → Nat → List Nat → Nat
+  | _, _, [] => 0
+  | j, now, a :: as =>
+    -- deadline := now + idle; the message is complete at `a`
+    if a > now + idle then 0 else 1 + idleLoop idle lag (j + 1) (Nat.max now a + lag j) as
+
+/-- what a client has to respect: every message is complete at most `idle` after the previous one was
+    (`prev` = previous completion; initially the time the connection was accepted) -/
+def paced (idle : Nat) : Nat → List Nat → Prop
+  | _, [] => True
+  | prev, a :: as => a ≤ prev + idle ∧ paced idle a as
+
+/-- the variant a reviewer seeded (deadline re-armed only when the bufio buffer is empty at the top of the
+    loop): `(a, buffered)` = completion time of the message and whether some of its octets were already
+    buffered when the loop came round; `dl` = the deadline currently armed. -/
+def idleLoopGuarded (idle : Nat) : Nat → Nat → List (Nat × Bool) → Nat
+  | _, _, [] => 0
+  | dl, now, (a, buffered) :: as =>
+    let dl := if buffered then dl else now + idle
+    if a > dl then 0 else 1 + idleLoopGuarded idle dl (Nat.max now a) as
+
+/-- the gnet listener: `cc.idleTimer.Reset(e.idleTimeout)` at the top of every `OnTraffic`; the timer closes
+    the connection `idle` after the last reset. `segs` = arrival times of the segments; returns how many
+    segments are processed before the timer fires. -/
+def gnetIdle (idle : Nat) : Nat → List Nat → Nat
+  | _, [] => 0
+  | last, t :: ts => if t ≥ last + idle then 0 else 1 + gnetIdle idle (Nat.max last t) ts
+
+/-- every pause between consecutive segments (and before the first one) is shorter than `idle` -/
+def gapsBelow (idle : Nat) : Nat → List Nat → Prop
+  | _, [] => True
+  | prev, t :: ts => t < prev + idle ∧ gapsBelow idle t ts
+
 /-- `packRespTCP` given the octets `m.Pack` produced (`n = body.length`):
     prefix `uint16(n)` big-endian, then the body, in ONE buffer. -/
 def packRespTCP (body : Bytes) : Bytes := be16 body.length ++ body
@@ -111,10 +161,12 @@ def packRespTCP (body : Bytes) : Bytes := be16 body.length ++ body
 
 /-! ### observables, executable spec, line protocol (real listeners over loopback)
 
-  case : `proto=<tcp|tls|gnet> max=<n> hold=<0|1|2> fr=<len>[x],… segs=<n>,…`
+  case : `proto=<tcp|tls|gnet> max=<n> hold=<0|1|2|3|4> fr=<len>[x],… segs=<n>,…`
          the client writes the stream of frames in the given segments (TCP_NODELAY, paced);
          `hold=1`: the upstream answers nothing until the client has seen every REFUSED it is due
-         (so exactly the first `max` queries are in flight), `hold=0`: it answers at once, out of order; `hold=3 wave=<k1>`: the first k1 queries in one burst, held, then all released and answered,
+         (so exactly the first `max` queries are in flight), `hold=0`: it answers at once, out of order; `hold=4 gaps=<ms>,… base=<b>`: timed segmentation against listeners with idle_timeout 1 s — real pauses
+         between the segments, every message complete within 0.65 × idle of the previous one (ids are reported
+         relative to `base`); judged exactly like `hold=0`; `hold=3 wave=<k1>`: the first k1 queries in one burst, held, then all released and answered,
          then the rest ping-pong; `hold=2`: ping-pong, the client sends the next
          frame only after it has read the response to the previous one (segments do not span frames).
   out  : `w=<id><a|r|x>|bad,… (sorted) up=<ids> closed=<0|1>` re-framed from the octets read back. -/
@@ -191,6 +243,8 @@ def splitSegs : List Nat → Bytes → Option (List Bytes)
   | n :: ns, s => if n = 0 || n > s.length then none else (splitSegs ns (s.drop n)).map (s.take n :: ·)
 
 def run (case impl : String) : String × String :=
+  -- timed scripts (hold=4) whose pauses came out longer than intended are not judged
+  if impl == "notjudged" then ("notjudged", "na") else
   let toks := words case
   match kvGet toks "proto", kvNat toks "max", (kvGet toks "fr").bind parseFrames, (kvGet toks "segs").bind parseNats,
         kvNat toks "hold" with
